@@ -557,6 +557,126 @@ func c01N(tier string) (sys, rnd int) {
 	return sys * 2, 400000
 }
 
+// c01Volume is the number of volume cases: one file of about 2700
+// templates, each printing a random expression (and using it as a condition and
+// as a let value), so that whatever the parser keeps for the lifetime of a file
+// has seen more than ten thousand operators before the last expressions come.
+func c01Volume(tier string) int {
+	if tier == "thorough" {
+		return 160
+	}
+	return 16
+}
+
+var c01RandGlobals = map[string]ref.Value{"GLOBAL_INT": ref.Int(7), "app.NAME": ref.Str("soy<app>"), "app.RATIO": ref.Float(0.5), "FLAG": ref.Bool(true)}
+
+// c01RandomExpr draws typed bindings and a random expression over them.
+func c01RandomExpr(r *fw.Rand, depth int, globals bool) (ref.Expr, map[string]ref.Value) {
+	g := &gen.G{R: r, O: gen.Opts{ErrPlants: true, Globals: globals, Astral: true}}
+	d := map[string]ref.Value{}
+	nextID := 700
+	perm := r.Perm(len(gen.ParamPool))
+	nb := 2 + r.Intn(4)
+	for k := 0; k < nb; k++ {
+		p := gen.ParamPool[perm[k]]
+		if p.Name == "e" {
+			continue
+		}
+		g.Bind(p.Name, p.Ty)
+		d[p.Name] = g.Data(p.Ty, &nextID)
+	}
+	ty := []gen.Ty{gen.TInt, gen.TInt, gen.TStr, gen.TBool, gen.TFloat, gen.TList(gen.TInt), gen.TMapAS}[r.Intn(7)]
+	e := g.Expr(ty, depth)
+	if g.O.Globals && r.P(1, 2) {
+		e = &ref.Binary{Op: "+", L: &ref.Global{Name: []string{"GLOBAL_INT", "app.NAME", "app.RATIO"}[r.Intn(3)]}, R: e}
+	}
+	return e, d
+}
+
+func countOps(e ref.Expr) int {
+	n := 0
+	switch x := e.(type) {
+	case *ref.Binary:
+		n = 1 + countOps(x.L) + countOps(x.R)
+	case *ref.Unary:
+		n = countOps(x.X)
+	case *ref.Tern:
+		n = countOps(x.C) + countOps(x.A) + countOps(x.B)
+	case *ref.Call:
+		for _, a := range x.Args {
+			n += countOps(a)
+		}
+	}
+	return n
+}
+
+// c01VolumeCase builds, compiles and judges one large file.
+func c01VolumeCase(ctx *fw.Ctx, i int) fw.Result {
+	r := ctx.Rng
+	nt := 2400 + r.Intn(600)
+	f := &ref.File{Name: "volume.soy", Namespace: "t"}
+	b := &ref.Bundle{Files: []*ref.File{f}, Globals: c01RandGlobals}
+	datas := make([]map[string]ref.Value, nt)
+	ops := 0
+	for k := 0; k < nt; k++ {
+		var e ref.Expr
+		var d map[string]ref.Value
+		for try := 0; ; try++ {
+			e, d = c01RandomExpr(r, 4+r.Intn(2), true)
+			if _, st := ref.Eval(e, ref.NewEnv(d, &c01IJ, c01RandGlobals)); st == ref.OK || (st == ref.Err && try > 2 && k%50 == 49) {
+				break
+			}
+		}
+		ops += 3 * countOps(e)
+		vars := map[string]bool{}
+		exprVars(e, vars)
+		t := &ref.Template{Name: fmt.Sprintf("m%d", k)}
+		var names []string
+		for n := range vars {
+			names = append(names, n)
+		}
+		sortStrings(names)
+		for _, n := range names {
+			if n != "it" && n != "v" {
+				t.Params = append(t.Params, ref.ParamDecl{Name: n, Optional: true})
+			}
+		}
+		t.Body = []ref.Node{&ref.Print{E: e}, &ref.Raw{Text: "|"},
+			&ref.If{Conds: []ref.Expr{e}, Bodies: [][]ref.Node{{&ref.Raw{Text: "T"}}}, HasElse: true, Else: []ref.Node{&ref.Raw{Text: "F"}}}, &ref.Raw{Text: "|"},
+			&ref.LetVal{Name: "v", E: e}, &ref.Print{E: &ref.DataRef{Name: "v"}}}
+		f.Templates = append(f.Templates, t)
+		datas[k] = d
+	}
+	style := ref.PrintStyle{Tight: i%3 == 1, Wide: i%3 == 2}
+	files := bundleSources(b, ref.Layout{Style: style})
+	ctx.Cell("pos:volume")
+	ctx.Obs("volume_operators", int64(ops))
+	prog := &gen.Program{B: b, Entry: "t.m0", Data: datas[0]}
+	cd := dump(files, prog, datas[0])
+	tofu, err := compile(files, b.Globals)
+	ctx.Eval(files[0].Text)
+	if err != nil {
+		cd.Files = nil // (half a megabyte; the case is regenerated from its index)
+		return fw.Result{Verdict: fw.Violated, Key: "compile-rejects-valid@volume", Case: cd,
+			Msg: fmt.Sprintf("a file of %d templates with %d operators in all, each expression valid on its own, is rejected: %v", nt, ops, errText(err))}
+	}
+	for k, t := range f.Templates {
+		segs, st := ref.Render(b, "t."+t.Name, datas[k], ref.RenderOpts{IJ: &c01IJ})
+		if st == ref.OOD {
+			continue
+		}
+		got, rerr := render(tofu, "t."+t.Name, datas[k], &c01IJ, nil)
+		one := &caseDump{Files: []srcFile{{Name: "volume.soy (template " + t.Name + " of it)", Text: ref.FileSrc(&ref.File{Name: f.Name, Namespace: f.Namespace, Templates: []*ref.Template{t}}, ref.Layout{Style: style}, nil)}},
+			Entry: "t." + t.Name, Data: goData(datas[k])}
+		if res := compareRender(ctx, segs, st, got, rerr, one); res != nil {
+			res.Key += "@volume"
+			res.Msg = fmt.Sprintf("template %d of %d in one file: %s", k, nt, res.Msg)
+			return *res
+		}
+	}
+	return fw.Result{Verdict: fw.Held}
+}
+
 func init() {
 	fw.Register(&fw.Prop{
 		ID:    "C01",
@@ -565,10 +685,13 @@ func init() {
 			"nestings with minimal and redundant parentheses, every function x argument-class tuple, every literal form, every data-reference form over nested data; each placed in " +
 			"21 syntactic positions (quick: two positions per expression, rotating; thorough: all); random: seeded typed expression trees of depth <= 4/6 with random data and position. " +
 			"Oracle: reference evaluator. distinct = distinct (source, data); non-trivial = contains an operator, function, access path or non-empty collection literal",
-		N: func(tier string) int { s, r := c01N(tier); return s + r },
+		N: func(tier string) int { s, r := c01N(tier); return s + r + c01Volume(tier) },
 		Run: func(ctx *fw.Ctx, i int) fw.Result {
-			sys, _ := c01N(ctx.Tier)
+			sys, rnd := c01N(ctx.Tier)
 			ref.NonFinite = true // quotients by zero take part in comparisons, equality and truthiness
+			if i >= sys+rnd {
+				return c01VolumeCase(ctx, i)
+			}
 			var e ref.Expr
 			var d map[string]ref.Value
 			var pos int
@@ -589,31 +712,15 @@ func init() {
 					pos = 1 + (i*7+i/len(c01Positions))%(len(c01Positions)-1)
 				}
 			} else {
-				g := &gen.G{R: ctx.Rng, O: gen.Opts{ErrPlants: true, Globals: ctx.Rng.P(1, 4), Astral: true}}
+				useGlobals := ctx.Rng.P(1, 4)
 				depth := 2 + ctx.Rng.Intn(3)
 				if ctx.Tier == "thorough" {
 					depth = 2 + ctx.Rng.Intn(5)
 				}
 				// bind a few typed variables, then generate over them
-				d = map[string]ref.Value{}
-				nextID := 700
-				perm := ctx.Rng.Perm(len(gen.ParamPool))
-				nb := 2 + ctx.Rng.Intn(4)
-				for k := 0; k < nb; k++ {
-					p := gen.ParamPool[perm[k]]
-					if p.Name == "e" {
-						continue
-					}
-					g.Bind(p.Name, p.Ty)
-					d[p.Name] = g.Data(p.Ty, &nextID)
-				}
-				if g.O.Globals {
-					globals = map[string]ref.Value{"GLOBAL_INT": ref.Int(7), "app.NAME": ref.Str("soy<app>"), "app.RATIO": ref.Float(0.5), "FLAG": ref.Bool(true)}
-				}
-				ty := []gen.Ty{gen.TInt, gen.TInt, gen.TStr, gen.TBool, gen.TFloat, gen.TList(gen.TInt), gen.TMapAS}[ctx.Rng.Intn(7)]
-				e = g.Expr(ty, depth)
-				if g.O.Globals && ctx.Rng.P(1, 2) {
-					e = &ref.Binary{Op: "+", L: &ref.Global{Name: []string{"GLOBAL_INT", "app.NAME", "app.RATIO"}[ctx.Rng.Intn(3)]}, R: e}
+				e, d = c01RandomExpr(ctx.Rng, depth, useGlobals)
+				if useGlobals {
+					globals = c01RandGlobals
 				}
 				pos = ctx.Rng.Intn(len(c01Positions))
 			}
